@@ -315,6 +315,15 @@ func (c *kvCore) lookup(q interface{}) (interface{}, error) {
 	return c.data[key], nil
 }
 
+func (c *kvCore) naLookup(q []byte) ([]byte, error) {
+	v, err := c.lookup(string(q))
+	if err != nil {
+		return nil, err
+	}
+	sv, _ := v.(string)
+	return []byte(sv), nil
+}
+
 func (c *kvCore) dumpLocked() string {
 	keys := make([]string, 0, len(c.data))
 	for k := range c.data {
@@ -459,6 +468,9 @@ func (s *RegularKV) Update(e sm.Entry) (sm.Result, error) {
 	return s.c.applyOne(e.Index, e.Cmd), nil
 }
 func (s *RegularKV) Lookup(q interface{}) (interface{}, error) { return s.c.lookup(q) }
+
+// NALookup (statemachine.IExtended): the no-allocation read path, same contract as Lookup.
+func (s *RegularKV) NALookup(q []byte) ([]byte, error) { return s.c.naLookup(q) }
 func (s *RegularKV) SaveSnapshot(w io.Writer, fc sm.ISnapshotFileCollection, stop <-chan struct{}) error {
 	s.c.enterShared("SaveSnapshot", &s.c.inSave)
 	defer atomic.AddInt32(&s.c.inSave, -1)
@@ -498,6 +510,7 @@ func (s *ConcurrentKV) Update(es []sm.Entry) ([]sm.Entry, error) {
 	return es, nil
 }
 func (s *ConcurrentKV) Lookup(q interface{}) (interface{}, error) { return s.c.lookup(q) }
+func (s *ConcurrentKV) NALookup(q []byte) ([]byte, error)        { return s.c.naLookup(q) }
 func (s *ConcurrentKV) PrepareSnapshot() (interface{}, error) {
 	s.c.enterExclusive("PrepareSnapshot", &s.c.inPrepare)
 	defer atomic.AddInt32(&s.c.inPrepare, -1)
@@ -567,6 +580,7 @@ func (s *OnDiskKV) Update(es []sm.Entry) ([]sm.Entry, error) {
 	return es, nil
 }
 func (s *OnDiskKV) Lookup(q interface{}) (interface{}, error) { return s.c.lookup(q) }
+func (s *OnDiskKV) NALookup(q []byte) ([]byte, error)        { return s.c.naLookup(q) }
 func (s *OnDiskKV) Sync() error {
 	s.c.enterExclusive("Sync", &s.c.inSync)
 	defer atomic.AddInt32(&s.c.inSync, -1)
